@@ -22,6 +22,71 @@ pub struct Case {
     pub wsplit: Vec<u32>,
     /// read-call sizes for the streaming decoder (cycled; empty = read_to_end)
     pub rsplit: Vec<u32>,
+    /// transfer sizes of the underlying stream itself (the source a decoder pulls from, the sink an encoder
+    /// pushes into), cycled; empty = an in-memory cursor / vector that transfers everything asked for
+    #[serde(default)]
+    pub ssplit: Vec<u32>,
+}
+
+/// An in-memory stream that moves at most `split[i]` bytes in its i-th transfer.
+struct Trickle<'a> {
+    src: &'a [u8],
+    at: usize,
+    sink: Vec<u8>,
+    split: &'a [u32],
+    i: usize,
+}
+
+impl<'a> Trickle<'a> {
+    fn new(src: &'a [u8], split: &'a [u32]) -> Self {
+        Trickle { src, at: 0, sink: Vec::new(), split, i: 0 }
+    }
+    fn cap(&mut self, want: usize) -> usize {
+        if self.split.is_empty() {
+            return want;
+        }
+        let k = self.split[self.i % self.split.len()].max(1) as usize;
+        self.i += 1;
+        want.min(k)
+    }
+}
+
+impl Read for Trickle<'_> {
+    fn read(&mut self, buf: &mut [u8]) -> std::io::Result<usize> {
+        let n = self.cap(buf.len()).min(self.src.len() - self.at);
+        buf[..n].copy_from_slice(&self.src[self.at..self.at + n]);
+        self.at += n;
+        Ok(n)
+    }
+}
+
+impl Write for Trickle<'_> {
+    fn write(&mut self, buf: &[u8]) -> std::io::Result<usize> {
+        let n = self.cap(buf.len());
+        self.sink.extend_from_slice(&buf[..n]);
+        Ok(n)
+    }
+    fn flush(&mut self) -> std::io::Result<()> {
+        Ok(())
+    }
+}
+
+impl futures::AsyncRead for Trickle<'_> {
+    fn poll_read(mut self: std::pin::Pin<&mut Self>, _: &mut std::task::Context<'_>, buf: &mut [u8]) -> std::task::Poll<std::io::Result<usize>> {
+        std::task::Poll::Ready(Read::read(&mut *self, buf))
+    }
+}
+
+impl futures::AsyncWrite for Trickle<'_> {
+    fn poll_write(mut self: std::pin::Pin<&mut Self>, _: &mut std::task::Context<'_>, buf: &[u8]) -> std::task::Poll<std::io::Result<usize>> {
+        std::task::Poll::Ready(Write::write(&mut *self, buf))
+    }
+    fn poll_flush(self: std::pin::Pin<&mut Self>, _: &mut std::task::Context<'_>) -> std::task::Poll<std::io::Result<()>> {
+        std::task::Poll::Ready(Ok(()))
+    }
+    fn poll_close(self: std::pin::Pin<&mut Self>, _: &mut std::task::Context<'_>) -> std::task::Poll<std::io::Result<()>> {
+        std::task::Poll::Ready(Ok(()))
+    }
 }
 
 fn data(c: &Case) -> Vec<u8> {
@@ -66,8 +131,8 @@ fn chunks<'a>(d: &'a [u8], split: &[u32]) -> Vec<&'a [u8]> {
     out
 }
 
-fn stream_compress_sync(c: u8, d: &[u8], split: &[u32]) -> std::io::Result<(Vec<u8>, usize)> {
-    let mut out = Vec::new();
+fn stream_compress_sync(c: u8, d: &[u8], split: &[u32], ssplit: &[u32]) -> std::io::Result<(Vec<u8>, usize)> {
+    let mut out = Trickle::new(&[], ssplit);
     let parts = chunks(d, split);
     {
         let mut w = util::compress(codec::to_lib(c), &mut out)?;
@@ -76,11 +141,11 @@ fn stream_compress_sync(c: u8, d: &[u8], split: &[u32]) -> std::io::Result<(Vec<
         }
         w.flush()?;
     }
-    Ok((out, parts.len()))
+    Ok((out.sink, parts.len()))
 }
 
-fn stream_compress_async(c: u8, d: &[u8], split: &[u32]) -> std::io::Result<(Vec<u8>, usize)> {
-    let mut out = Vec::new();
+fn stream_compress_async(c: u8, d: &[u8], split: &[u32], ssplit: &[u32]) -> std::io::Result<(Vec<u8>, usize)> {
+    let mut out = Trickle::new(&[], ssplit);
     let parts = chunks(d, split);
     {
         let mut w = util::compress_async(codec::to_lib(c), &mut out)?;
@@ -89,11 +154,11 @@ fn stream_compress_async(c: u8, d: &[u8], split: &[u32]) -> std::io::Result<(Vec
         }
         block_on(w.close())?;
     }
-    Ok((out, parts.len()))
+    Ok((out.sink, parts.len()))
 }
 
-fn stream_decompress_sync(c: u8, comp: &[u8], split: &[u32]) -> std::io::Result<(Vec<u8>, usize)> {
-    let mut cur = std::io::Cursor::new(comp);
+fn stream_decompress_sync(c: u8, comp: &[u8], split: &[u32], ssplit: &[u32]) -> std::io::Result<(Vec<u8>, usize)> {
+    let mut cur = Trickle::new(comp, ssplit);
     let mut r = util::decompress(codec::to_lib(c), &mut cur)?;
     let mut out = Vec::new();
     if split.is_empty() {
@@ -114,8 +179,8 @@ fn stream_decompress_sync(c: u8, comp: &[u8], split: &[u32]) -> std::io::Result<
     Ok((out, i))
 }
 
-fn stream_decompress_async(c: u8, comp: &[u8], split: &[u32]) -> std::io::Result<(Vec<u8>, usize)> {
-    let mut cur = futures::io::Cursor::new(comp);
+fn stream_decompress_async(c: u8, comp: &[u8], split: &[u32], ssplit: &[u32]) -> std::io::Result<(Vec<u8>, usize)> {
+    let mut cur = Trickle::new(comp, ssplit);
     let mut r = util::decompress_async(codec::to_lib(c), &mut cur)?;
     let mut out = Vec::new();
     if split.is_empty() {
@@ -156,8 +221,8 @@ fn check(c: &Case, py: bool) -> CaseResult {
     }
     // encoders
     let one = guarded("compress_all", || util::compress_all(codec::to_lib(c.codec), &d))?.map_err(|e| Fail::new(format!("C14/err/compress_all/{cn}"), format!("{e}")))?;
-    let (ss, nw) = e("compress(streaming)", guarded("compress", || stream_compress_sync(c.codec, &d, &c.wsplit))?)?;
-    let (sa, _) = e("compress_async", guarded("compress_async", || stream_compress_async(c.codec, &d, &c.wsplit))?)?;
+    let (ss, nw) = e("compress(streaming)", guarded("compress", || stream_compress_sync(c.codec, &d, &c.wsplit, &c.ssplit))?)?;
+    let (sa, _) = e("compress_async", guarded("compress_async", || stream_compress_async(c.codec, &d, &c.wsplit, &c.ssplit))?)?;
     let mut nr = 0;
     for (ename, comp) in [("compress_all", &one), ("compress-streaming", &ss), ("compress_async", &sa)] {
         // upstream crates decode it, consuming the whole stream
@@ -167,9 +232,9 @@ fn check(c: &Case, py: bool) -> CaseResult {
         // library decoders, every pairing
         let r1 = guarded("decompress_all", || util::decompress_all(codec::to_lib(c.codec), comp))?.map_err(|e| Fail::new(format!("C14/err/decompress_all/{cn}"), format!("on the output of {ename}: {e}")))?;
         ensure!(r1 == d, format!("C14/roundtrip-differs/{ename}->decompress_all/{cn}"), "{}", same(&r1, &d));
-        let (r2, n2) = e("decompress(streaming)", guarded("decompress", || stream_decompress_sync(c.codec, comp, &c.rsplit))?)?;
+        let (r2, n2) = e("decompress(streaming)", guarded("decompress", || stream_decompress_sync(c.codec, comp, &c.rsplit, &c.ssplit))?)?;
         ensure!(r2 == d, format!("C14/roundtrip-differs/{ename}->decompress-streaming/{cn}"), "read sizes {:?}: {}", &c.rsplit[..c.rsplit.len().min(6)], same(&r2, &d));
-        let (r3, _) = e("decompress_async", guarded("decompress_async", || stream_decompress_async(c.codec, comp, &c.rsplit))?)?;
+        let (r3, _) = e("decompress_async", guarded("decompress_async", || stream_decompress_async(c.codec, comp, &c.rsplit, &c.ssplit))?)?;
         ensure!(r3 == d, format!("C14/roundtrip-differs/{ename}->decompress_async/{cn}"), "read sizes {:?}: {}", &c.rsplit[..c.rsplit.len().min(6)], same(&r3, &d));
         nr = nr.max(n2);
     }
@@ -193,6 +258,8 @@ fn check(c: &Case, py: bool) -> CaseResult {
         .label(c.seed % 3 == 0 && c.codec != 1, "after-failed-decompress")
         .label(nw >= 2, "multi-write")
         .label(nr >= 2, "multi-read")
+        .label(!c.ssplit.is_empty(), "short-transfers-in-underlying-stream")
+        .label(c.ssplit.first().map_or(false, |k| *k < 4), "first-transfer-shorter-than-a-codec-magic")
         .label(true, super::c01::codec_label(c.codec)))
 }
 
@@ -258,7 +325,7 @@ fn python_batch(ctx: &Ctx) {
 fn strategy(max_len: u32) -> impl Strategy<Value = Case> {
     let len = prop_oneof![1 => Just(0u32), 1 => Just(1u32), 4 => 2u32..300, 3 => 300u32..20_000, 1 => 20_000u32..=max_len];
     let split = || prop_oneof![1 => Just(vec![]), 2 => (1u32..10).prop_map(|k| vec![k]), 3 => proptest::collection::vec(prop_oneof![3 => 1u32..20, 2 => 20u32..5000, 1 => 5000u32..100_000], 1..8)];
-    (prop_oneof![6 => 0u8..3, 2 => 3u8..6, 2 => 6u8..9], len, any::<u32>(), 1u8..=4, split(), split()).prop_map(|(kind, len, seed, codec, wsplit, rsplit)| Case { kind, len, seed, codec, wsplit, rsplit })
+    (prop_oneof![6 => 0u8..3, 2 => 3u8..6, 2 => 6u8..9], len, any::<u32>(), 1u8..=4, split(), split(), prop_oneof![2 => Just(vec![]), 1 => (1u32..6).prop_map(|k| vec![k]), 2 => proptest::collection::vec(prop_oneof![3 => 1u32..8, 2 => 8u32..5000], 1..6)]).prop_map(|(kind, len, seed, codec, wsplit, rsplit, ssplit)| Case { kind, len, seed, codec, wsplit, rsplit, ssplit })
 }
 
 pub fn run(ctx: &Ctx) {
@@ -272,15 +339,15 @@ pub fn run(ctx: &Ctx) {
     let py = true;
     run_proptest(ctx, "codec-pairings", PtCfg::new(ctx.lanes, ctx.tier.pick(300, 5000)), || strategy(ctx.tier.pick(262_144, 1_048_576)), |c| check(c, py));
     let big: Vec<Case> = (0..ctx.tier.pick(4, 16))
-        .map(|i| Case { kind: (i % 3) as u8, len: ctx.tier.pick(262_144, if i % 4 == 2 { 1 << 20 } else { 8 << 20 }), seed: 77 + i as u32, codec: 1 + (i % 4) as u8, wsplit: vec![65_536, 1, 4096], rsplit: vec![8192, 3] })
+        .map(|i| Case { kind: (i % 3) as u8, len: ctx.tier.pick(262_144, if i % 4 == 2 { 1 << 20 } else { 8 << 20 }), seed: 77 + i as u32, codec: 1 + (i % 4) as u8, wsplit: vec![65_536, 1, 4096], rsplit: vec![8192, 3], ssplit: if i % 2 == 0 { vec![] } else { vec![1, 3, 70_000] } })
         .collect();
     run_list(ctx, "codec-pairings-large", &big, |c| check(c, false));
     // just above 1 MiB for every codec in every tier (buffer / member-size thresholds of the codecs)
-    let mib: Vec<Case> = (1..=4u8).map(|c| Case { kind: if c % 2 == 0 { 2 } else { 0 }, len: (1 << 20) + 1 + u32::from(c), seed: 5 + u32::from(c), codec: c, wsplit: vec![], rsplit: vec![] }).collect();
+    let mib: Vec<Case> = (1..=4u8).map(|c| Case { kind: if c % 2 == 0 { 2 } else { 0 }, len: (1 << 20) + 1 + u32::from(c), seed: 5 + u32::from(c), codec: c, wsplit: vec![], rsplit: vec![], ssplit: vec![] }).collect();
     run_list(ctx, "codec-pairings-above-1MiB", &mib, |c| check(c, false));
     run_list(ctx, "unknown-compression", &[0u8, 1u8], check_unknown);
     python_batch(ctx);
-    for c in ["empty-input", "one-byte", "large-input", "multi-write", "multi-read", "starts-with-codec-magic", "already-compressed-payload", "after-failed-decompress", "internal-brotli", "internal-gzip", "internal-zstd", "internal-none"] {
+    for c in ["empty-input", "one-byte", "large-input", "multi-write", "multi-read", "starts-with-codec-magic", "already-compressed-payload", "after-failed-decompress", "short-transfers-in-underlying-stream", "first-transfer-shorter-than-a-codec-magic", "internal-brotli", "internal-gzip", "internal-zstd", "internal-none"] {
         ctx.rec.floor(c, 4);
     }
 }
